@@ -115,6 +115,9 @@ func (g *Gen) stmt(d int) []L.Stmt {
 	case w < 84:
 		return g.callStatement(d)
 	case w < 89:
+		if g.pure > 0 {
+			return g.numFor(d)
+		}
 		return g.protectedStmt(d)
 	case w < 92:
 		return g.multiAssign(d)
@@ -577,7 +580,7 @@ func (g *Gen) earlyExit(d int) []L.Stmt {
 		g.class("break")
 		return []L.Stmt{ifs(g.cond(d), blk(&L.BreakStmt{}), nil)}
 	}
-	if g.fn.depth > 0 {
+	if g.fn.depth > 0 && !(g.pure > 0 && g.fn.depth == 1) {
 		var rs []L.Expr
 		for _, rk := range g.fn.rets {
 			rs = append(rs, g.expr(rk, 2))
